@@ -71,6 +71,9 @@ def cases(tier, seed):
                         "tier": tier})
     out.append({"id": "rigidcluster", "kind": "rigid", "tier": tier})
     out.append({"id": "composite:nested", "kind": "nested", "tier": tier})
+    out.append({"id": "points:single-point-forms", "kind": "single"})
+    out.append({"id": "angles:array-valued-degrees", "kind": "arrangles"})
+    out.append({"id": "composite:csg", "kind": "csg", "tier": tier})
     out.append({"id": "points:mixed-magnitudes", "kind": "mixedmag",
                 "tier": tier})
     return out
@@ -584,9 +587,151 @@ def _run_rigid(case, ck):
     return digest(*acc)
 
 
+def _run_single(case, ck):
+    """one point, given as three numbers (list, tuple, 1-d array), a (3, 1)
+    array, or 2-d coordinate arrays with a scalar z: the result is that of
+    the same point inside a longer list"""
+    from holopy.core.math import find_transformation_function as ftf
+    names = ("cartesian", "spherical", "cylindrical")
+    pts = [(1.0, -2.0, 3.0), (0.3, 0.4, -1.2), (2.0, 0.0, 0.0)]
+    filler = np.array([[0.7, 0.1, 0.2], [1.1, -0.3, 2.2]]).T
+    acc = []
+    for a in names:
+        for b in names:
+            if a == b:
+                continue
+            for p in pts:
+                src = np.asarray(ftf("cartesian", a)(
+                    np.array(p, float).reshape(3, 1)), float)[:, 0] \
+                    if a != "cartesian" else np.array(p, float)
+                ref = np.asarray(ftf(a, b)(np.column_stack(
+                    [src, np.asarray(ftf("cartesian", a)(filler), float)
+                     if a != "cartesian" else filler])), float)[:, 0]
+                ck.trans += 1
+                forms = {"list": [float(v) for v in src],
+                         "tuple": tuple(float(v) for v in src),
+                         "1-d array": np.array(src),
+                         "(3, 1) array": np.array(src).reshape(3, 1)}
+                for fname, arg in forms.items():
+                    try:
+                        got = np.asarray(ftf(a, b)(arg), float)
+                        ck.trans += 1
+                    except Exception as e:
+                        ck.true("single-point", False, "%s -> %s of the one "
+                                "point %r given as %s raised %s: %s" %
+                                (a, b, src.tolist(), fname,
+                                 type(e).__name__, str(e)[:80]))
+                        continue
+                    e = float(np.abs(got.reshape(-1)[:3] - ref).max())
+                    ck.true("single-point", got.size == 3 and e <= 1e-14,
+                            "%s -> %s of the one point %r given as %s gives "
+                            "%r, inside a list of points %r" %
+                            (a, b, src.tolist(), fname, got.tolist(),
+                             ref.tolist()))
+                acc.append(np.round(ref, 9))
+    # a grid of x, y with one height
+    X, Y = np.meshgrid([0.5, 1.0, 1.5], [-1.0, 2.0], indexing="ij")
+    try:
+        got = np.asarray(ftf("cartesian", "cylindrical")([X, Y, 3.0]), float)
+        ck.trans += 1
+        ref = np.asarray(ftf("cartesian", "cylindrical")(
+            [X.ravel(), Y.ravel(), np.full(6, 3.0)]), float)
+        ck.true("single-point", got.shape == (3, 3, 2) and
+                np.abs(got.reshape(3, -1) - ref).max() <= 1e-14,
+                "cartesian -> cylindrical of 2-d x, y with a scalar z gives "
+                "shape %r" % (got.shape,))
+    except Exception as e:
+        ck.true("single-point", False, "cartesian -> cylindrical of 2-d x, y "
+                "with a scalar z raised %s: %s" % (type(e).__name__,
+                                                   str(e)[:80]))
+    return digest(*acc)
+
+
+def _run_arrangles(case, ck):
+    """angles held in arrays (0-d, or elements of the caller's array): the
+    call neither changes them nor depends on having been made before"""
+    from holopy.core.math import rotation_matrix
+    acc = []
+    for deg in ((30.0, 45.0, 60.0), (10.0, 0.0, 350.0)):
+        ref = euler_zyz(*[math.radians(v) for v in deg])
+        for form in ("0-d float array", "0-d int array", "np.float64",
+                     "np.int64"):
+            mk = {"0-d float array": lambda v: np.array(v),
+                  "0-d int array": lambda v: np.array(int(v)),
+                  "np.float64": lambda v: np.float64(v),
+                  "np.int64": lambda v: np.int64(int(v))}[form]
+            args = [mk(v) for v in deg]
+            before = [float(v) for v in args]
+            for call in (1, 2):
+                try:
+                    R = np.asarray(rotation_matrix(*args, radians=False))
+                    ck.trans += 1
+                except Exception as e:
+                    ck.true("rot-degrees", False, "rotation_matrix(%s "
+                            "angles %r, radians=False) raised %s: %s" %
+                            (form, deg, type(e).__name__, str(e)[:80]))
+                    break
+                e = float(np.abs(R - ref).max())
+                ck.true("rot-degrees", e <= 1e-13, "rotation_matrix(%s "
+                        "angles %r, radians=False), call %d: differs from "
+                        "the documented matrix by %.2e" % (form, deg, call,
+                                                           e))
+                ck.true("input-unchanged", [float(v) for v in args] ==
+                        before, "rotation_matrix changed the caller's "
+                        "angles from %r to %r" %
+                        (before, [float(v) for v in args]))
+            acc.append(np.round(ref, 9))
+    return digest(*acc)
+
+
+def _run_csg(case, ck):
+    """unions / differences / intersections of two spheres: rotating or
+    translating moves both members rigidly"""
+    import warnings
+    from holopy.scattering import Sphere
+    from holopy.scattering.scatterer import Union, Difference, Intersection
+    acc = []
+    s1 = Sphere(n=1.5, r=0.6, center=(0.2, -0.1, 5.0))
+    s2 = Sphere(n=1.5, r=0.5, center=(0.9, 0.4, 5.3))
+    for cls in (Union, Difference, Intersection):
+        comp = cls(s1, s2)
+        c0 = np.array([comp.s1.center, comp.s2.center], float)
+        for rot in ROT[case["tier"]]:
+            with warnings.catch_warnings():
+                warnings.simplefilter("ignore")
+                new = comp.rotated(*rot)
+            ck.trans += 1
+            c1 = np.array([new.s1.center, new.s2.center], float)
+            R = euler_zyz(*rot)
+            e = float(np.abs((c1[1] - c1[0]) - R @ (c0[1] - c0[0])).max())
+            ck.metric("rot_csg", e)
+            ck.true("rot-distances", e <= 1e-12, "%s of two spheres rotated "
+                    "by %r: the vector between its members is %r, the "
+                    "rotated one is %r" % (cls.__name__, rot,
+                                           (c1[1] - c1[0]).tolist(),
+                                           (R @ (c0[1] - c0[0])).tolist()))
+            # (a CSG object's centre -- its pivot -- is documented to be
+            # the first member's centre, not the midpoint)
+            e = float(np.abs(np.asarray(new.center, float) -
+                             np.asarray(comp.center, float)).max())
+            ck.true("rot-centroid", e <= 1e-12, "%s rotated by %r: its "
+                    "centre moved by %.2e" % (cls.__name__, rot, e))
+            acc.append(np.round(c1, 8))
+        for t in ((0.5, -1.0, 2.0), (0.0, 0.0, -3.0)):
+            new = comp.translated(*t)
+            ck.trans += 1
+            c1 = np.array([new.s1.center, new.s2.center], float)
+            e = float(np.abs(c1 - c0 - np.array(t)).max())
+            ck.true("translate", e <= 1e-12, "%s translated by %r: members "
+                    "moved by %r" % (cls.__name__, t, (c1 - c0).tolist()))
+    return digest(*acc)
+
+
 def run_case(case):
     ck = Checker()
-    fp = {"points": _run_points, "angles": _run_angles,
+    fp = {"single": _run_single, "arrangles": _run_arrangles,
+          "csg": _run_csg,
+          "points": _run_points, "angles": _run_angles,
           "composite": _run_composite, "rigid": _run_rigid,
           "nested": _run_nested, "mixedmag": _run_mixedmag}[case["kind"]](
               case, ck)
